@@ -114,3 +114,39 @@ pub open spec fn valid_interface(o: &InterfaceTypeDefinition, d: &DefinitionMap)
     &&& fields_ok_upto(o.fields@, d, o.fields@.len() as int)
     &&& forall|i: int| 0 <= i < o.implements@.len() ==> #[trigger] iface_implements_ok(o, d, i)
 }
+
+// ---- 3.9 Enums: reserved name, directives at ENUM / ENUM_VALUE, unique value names
+use crate::nitrogql_ast::type_system::EnumTypeDefinition;
+
+pub open spec fn enum_names(e: &EnumTypeDefinition) -> Seq<Seq<char>> {
+    Seq::new(e.values@.len(), |k: int| e.values@[k].name.name@)
+}
+/// the rules for the head of the definition and for its first n values
+pub open spec fn enum_ok_upto(e: &EnumTypeDefinition, d: &DefinitionMap, n: int) -> bool {
+    &&& !reserved(e.name.name@)                                                              // reserved name
+    &&& dirs_valid(&d.type_system, no_vars(), e.directives@, "ENUM"@)                             // directives at ENUM
+    &&& nodup(enum_names(e).take(n))                                                         // 3.9: unique value names
+    &&& forall|i: int| 0 <= i < n ==> dirs_valid(&d.type_system, no_vars(), (#[trigger] e.values@[i]).directives@, "ENUM_VALUE"@)
+}
+pub open spec fn valid_enum(e: &EnumTypeDefinition, d: &DefinitionMap) -> bool { enum_ok_upto(e, d, e.values@.len() as int) }
+
+
+// ---- a whole type-system document: every definition satisfies the rules of its kind
+use crate::nitrogql_ast::type_system::{TypeSystemDefinition, TypeSystemDocument};
+pub open spec fn tsdef_valid(def: TypeSystemDefinition, d: &DefinitionMap) -> bool {
+    match def {
+        TypeSystemDefinition::SchemaDefinition(x) => valid_schema_def(&x, d),
+        TypeSystemDefinition::TypeDefinition(t) => match t {
+            AstTypeDefinition::Scalar(x) => valid_scalar(&x, d),
+            AstTypeDefinition::Object(x) => valid_object(&x, d),
+            AstTypeDefinition::Interface(x) => valid_interface(&x, d),
+            AstTypeDefinition::Union(x) => valid_union(&x, d),
+            AstTypeDefinition::Enum(x) => valid_enum(&x, d),
+            AstTypeDefinition::InputObject(x) => valid_input_object(&x, d),
+        },
+        TypeSystemDefinition::DirectiveDefinition(x) => valid_directive_def(&x, d),
+    }
+}
+pub open spec fn tsdoc_ok_upto(doc: &TypeSystemDocument, d: &DefinitionMap, n: int) -> bool {
+    forall|i: int| 0 <= i < n ==> tsdef_valid(#[trigger] doc.definitions@[i], d)
+}
